@@ -8,7 +8,7 @@ from harness import lib_queue as lq
 
 PID = 'C04'
 TITLE = 'Iterator queues deliver every element exactly once and always terminate'
-LEAN_MODULES = ['MlModel.Properties.C04']
+LEAN_MODULES = ['MlModel.Properties.C04', 'MlModel.Properties.C04Live', 'MlModel.Witness.C04']
 TRUSTED = [
     'scheduler shim (harness/sched/shim.py) implements CPython Lock/RLock/Condition(FIFO notify, no spurious wake-up)/'
     'queue.Queue/SimpleQueue semantics; one atomic step = one synchronisation operation, the thread-local code after it '
@@ -21,7 +21,10 @@ RULE = ('configurations: 1-3 producers x 1-3 consumers (get loop / get_batch loo
         'capacity in {0,1,2,3} x sources of 0-3 (quick) / 0-5 (thorough) elements; schedules: seeded uniform-random and PCT-style '
         'priority schedules chosen on the REAL code, then replayed choice by choice on the Lean LTS comparing every executed '
         'operation label, the set of enabled choices before every step, and the final per-thread outcomes; '
-        'non-trivial = at least 2 threads took turns at least 10 times in the schedule')
+        'non-trivial = at least 2 threads took turns at least 10 times in the schedule. '
+        'Model-guided stage: for 4 fixed small configurations, seeded random walks on the Lean LTS are reduced (greedy cover) '
+        'to schedules that together execute every program point (Pc constructor) reachable without failure/stop/timeout; '
+        'each is replayed on the REAL code, compared as above and checked by the oracle; histograms pc / pc_unreached')
 
 
 def gen_cases(ctx):
@@ -38,6 +41,40 @@ def gen_cases(ctx):
     ctx.count('cap', case['cap'])
     ctx.count('threads', f'{nprod}p{ncons}c')
     yield case
+
+
+def _cfg(cap, threads, timeout=False):
+  return dict(cap=cap, max_enq=sum(1 for t in threads if t['kind'] == 'producer'), timeout=timeout, threads=threads)
+
+
+_P = lambda src, ret=900: dict(kind='producer', src=src, ret=ret)
+_G = dict(kind='get')
+_B = lambda m, block: dict(kind='batch', max=m, block=block)
+
+# Model-guided stage: fixed small configurations of the C04 setting (no failing item, no stop request, no
+# timeout): producers + get / get_batch (blocking and not) consumers, capacity 0 (unbounded), 1 and 2.
+GUIDED_CONFIGS = [
+    _cfg(1, [_P([0, 1, 2]), _P([100], 901), _G, _B(2, True)]),
+    _cfg(0, [_P([0, 1, 2]), _B(1024, False), _G]),
+    _cfg(2, [_P([0, 1]), _P([100, 101], 901), _B(2, False), _B(3, True)]),
+    _cfg(1, [_P([]), _G]),
+]
+# Program points of the LTS that no C04 configuration can execute, and why (they are C05's).
+_NO_TIMEOUT = 'no timeout configured: a parked wait has no timeout alternative'
+_NO_STOPPER = 'maybe_stop is never called'
+GUIDED_UNREACHABLE = {
+    'gWake:timeout': _NO_TIMEOUT, 'bWake:timeout': _NO_TIMEOUT, 'pWake:timeout': _NO_TIMEOUT,
+    'pRaiseT': 'only entered from pWake:timeout',
+    'pExit': 'put sees enqueue_done only after a failure / stop request / timeout: without them the putting '
+             'producer itself has not stopped yet (stop < start)',
+    **{m: _NO_STOPPER for m in ('mAcq', 'mRel', 'mE0', 'mE1', 'mE2', 'mD0', 'mD1', 'mD2')},
+}
+
+
+def extra(ctx):
+  """Model-guided stage: schedules chosen by random walks on the Lean LTS so that together they execute every
+  program point reachable in the C04 setting, replayed on the real code and compared step by step."""
+  lq.model_guided(ctx, GUIDED_CONFIGS, ctx.seed, unreachable=GUIDED_UNREACHABLE, oracle=oracle)
 
 
 run_impl = lq.run_impl
